@@ -575,6 +575,11 @@ func checkUnaryOwnership(e *Env, sim *Sim) {
 		if r.Spec.Kind != KUnary || !r.Started || !r.Returned {
 			continue
 		}
+		if r.HInvoked > 1 {
+			// one request envelope, one handler run: a second run means an envelope with this
+			// call's id and payload was on the wire twice (in place of some other call's)
+			e.Violate("C05", "request-delivered-twice", "unary.request", "call %d: its handler ran %d times for one request", id, r.HInvoked)
+		}
 		if r.HInvoked >= 1 && !bytes.Equal(r.HReq, r.Spec.Req) {
 			if c, d, _, ok := payloadTag(r.HReq); ok && c != id {
 				e.Violate("C05", "cross-delivery", "unary.request", "call %d: its handler was given the payload of call %d (dir=%c)", id, c, d)
